@@ -1,9 +1,9 @@
-"""Random hail programs built THROUGH the Python expression / Table / MatrixTable API.
+"""Random hail expression DAGs built THROUGH the Python expression API (shared by C35 and C36).
 
-Shared by C35 (CSE rendering) and C36 (front-end types).  Everything here only *calls* the
-repository's API (``hl.*``); no IR node is constructed by hand except where the brief asks for
-sources "built directly as IR" (``TableRange`` via ``hl.utils.range_table``, ``TableParallelize`` via
-``hl.Table.parallelize`` -- both pure IR construction in this version).
+Everything here only *calls* the repository's API (``hl.*``); no IR node is constructed by hand.  The
+Table / MatrixTable program builders live in the monitors (vf/monitors/c35.py ``table_program``,
+vf/monitors/c36.py phases ``table`` / ``matrix``); they use ``ExprGen`` with a ``Scope`` whose variables are the
+row / column / entry / global fields.
 
 Design of the expression generator (``ExprGen``)
 ------------------------------------------------
@@ -11,12 +11,13 @@ Design of the expression generator (``ExprGen``)
 * *deliberate sharing*: every generated Expression object is put in a pool together with the set of
   variable names it needs; ``gen`` re-uses pool entries (the very same Python object => the very same
   IR node object => a CSE candidate) whenever all needed names are bound in the current scope; the
-  ``dup`` rule generates one expression and uses it 2-4 times inside/outside a lambda / across an
-  aggregation boundary / under both branches of a conditional;
+  ``dup`` rule generates one expression (possibly itself a local aggregation) and uses it 2-4 times
+  inside/outside a lambda / across an aggregation boundary / under both branches of a conditional;
 * scopes follow the front end's own rules: lambda variables are usable in the lambda body;
   inside ``array.aggregate(lambda e: ...)`` (``StreamAgg``) the *result* position may use the outer
   variables and aggregations but not ``e``; aggregator arguments (*seq* position) may use ``e``, explode
-  variables and outer aggregation variables but no lambda variables (``_check_agg_bindings``).
+  variables and outer aggregation variables but no lambda variables (``_check_agg_bindings``);
+  ``stream._aggregate_scan`` (``StreamAggScan``) binds ``e`` in both the eval and the scan scope.
 """
 
 # type keys --------------------------------------------------------------------------------------
@@ -71,10 +72,6 @@ class PoolEntry:
         self.has_agg = has_agg
         self.agg_id = agg_id
         self.size = size
-
-
-class GenBudget(Exception):
-    pass
 
 
 def ir_needs(ir_mod, x):
